@@ -27,6 +27,7 @@ Monitors
 from __future__ import annotations
 
 import asyncio
+import concurrent.futures
 import contextvars
 import inspect
 import itertools
@@ -39,6 +40,28 @@ from typing import Any
 from hv.gen import argnames, family, stacking
 from hv.record import Recorder
 
+
+class ThreadPerCall(concurrent.futures.Executor):
+    """a legal Executor that is no ThreadPoolExecutor: every submitted call gets a (named) thread of its own"""
+
+    def submit(self, fn: Any, /, *args: Any, **kwargs: Any) -> Any:
+        future: concurrent.futures.Future[Any] = concurrent.futures.Future()
+
+        def work() -> None:
+            if not future.set_running_or_notify_cancel():
+                return
+            try:
+                future.set_result(fn(*args, **kwargs))
+            except BaseException as exc:  # noqa: BLE001
+                future.set_exception(exc)
+
+        threading.Thread(target=work, name="hvpool-own", daemon=True).start()
+        return future
+
+    def shutdown(self, wait: bool = True, *, cancel_futures: bool = False) -> None:
+        pass
+
+
 ID = "C18"
 LEVEL = "exploration"
 TECHNIQUE = "differential execution (plain call vs decorated call) on a real event loop with executor threads; thread-identity and heartbeat probes; context probes inside and after the call"
@@ -50,7 +73,7 @@ ASSUMPTIONS = [
     "class-level access of a decorated method, traced outside any event loop and python -O runs are unspecified",
     "real threads and a real selector loop are used; no verdict depends on timing (the blocking function is released by the heartbeat task itself)",
 ]
-MINIMUMS = {"monitor:transparent": 1500, "monitor:off-loop-thread": 300, "monitor:caller-context": 300, "monitor:no-leak": 300, "monitor:traced-scope": 200, "monitor:mimic": 20, "method_calls": 150, "kwargs_calls": 400, "awaitable_results": 100, "calls_prepared_elsewhere_and_awaited_later": 150, "calls_through_wrapped_uncommon_callables": 16, "calls_of_callables_with_another_advertised_signature": 6}
+MINIMUMS = {"monitor:transparent": 1500, "monitor:off-loop-thread": 300, "monitor:caller-context": 300, "monitor:no-leak": 300, "monitor:traced-scope": 200, "monitor:mimic": 20, "method_calls": 150, "kwargs_calls": 400, "awaitable_results": 100, "calls_prepared_elsewhere_and_awaited_later": 150, "calls_through_wrapped_uncommon_callables": 16, "calls_of_callables_with_another_advertised_signature": 6, "calls_through_a_hand_written_executor": 100}
 JOBS = {"quick": 4, "thorough": 8}
 LEVEL_TEXT = (
     "Every (signature, call form, outcome) of an 8-signature family is run plainly and through asynchronous (function / method, default / explicit executor, both decorator forms), "
@@ -244,8 +267,11 @@ async def one_call(C: Ctx, case: dict[str, Any]) -> None:
     pool = None
     if deco in ("asynchronous-executor",):
         pool = ThreadPoolExecutor(max_workers=2, thread_name_prefix="hvpool")
+    elif deco == "asynchronous-own-executor":
+        pool = ThreadPerCall()  # any concurrent.futures.Executor will do: here a hand-written one starting a thread per call
+        R.count("calls_through_a_hand_written_executor")
     decorate = {
-        "asynchronous": asynchronous, "asynchronous-call": lambda f: asynchronous()(f), "asynchronous-executor": lambda f: asynchronous(executor=pool)(f),
+        "asynchronous": asynchronous, "asynchronous-call": lambda f: asynchronous()(f), "asynchronous-executor": lambda f: asynchronous(executor=pool)(f), "asynchronous-own-executor": lambda f: asynchronous(executor=pool)(f),
         "wrap_async": wrap_async, "wrap_async-of-async": wrap_async, "traced": traced, "traced-async": traced,
     }[deco]
     hand: BaseException | None = Hand("handed") if outcome == "raise" else (HandBase("handed-base") if outcome == "raise-base" else None)
@@ -639,7 +665,7 @@ def mimic_checks(R: Recorder) -> None:
         R.monitor("mimic", not bad, where={"kind": "metadata-lost", "deco": label.split("-")[0].split("(")[0], "attr": bad[0] if bad else None}, detail=f"{label}: {facts}", case={"mimic": label})
 
 
-DECOS = ("asynchronous", "asynchronous-call", "asynchronous-executor", "wrap_async", "wrap_async-of-async", "traced", "traced-async")
+DECOS = ("asynchronous", "asynchronous-call", "asynchronous-executor", "asynchronous-own-executor", "wrap_async", "wrap_async-of-async", "traced", "traced-async")
 
 
 def argname_wrappers() -> dict[str, tuple[Any, bool, bool]]:
